@@ -77,45 +77,72 @@ def lccDrho (scale n nc t0nm1 psi0 : α) (tchi scchi psi dpsi : α) : α :=
       (RealLike.exp (sq nc / ((1 : α) + n) * psi) * emPsi tchi scchi - (t0nm1 + 1)) / (-n)
     else Dexp (-n * psi) (-n * psi0) * dpsi))
 
-/-- the careful evaluation of `nc = sqrt((1 − n)(1 + n))` for `n >= 1/4` (arguments as in `Init`) -/
-def lccNcCareful (E : Ell α) (n den : α)
+/-! ### The careful evaluation of `1 − n` for `n >= 1/4`, piece by piece (the names are those of the code) -/
+
+/-- `s1 = (scbet1 − scchi1)(scbet1 + scchi1)` -/
+def lccS (e2 tphi scphi shxi chxi : α) : α :=
+  tphi * ((2 : α) * shxi * chxi * scphi - e2 * tphi) - sq shxi * ((1 : α) + (2 : α) * sq tphi)
+/-- `t1 = scbet1 − tchi1` -/
+def lccT (s tchi scbet : α) : α := if RealLike.ltb tchi (0 : α) then scbet - tchi else (s + 1) / (scbet + tchi)
+/-- `a1 = ((tchi1 − scbet1) + (scchi1 − scbet1))/(2 scbet1)` -/
+def lccA (s t scchi scbet : α) : α := -(s / (scbet + scchi) + t) / ((2 : α) * scbet)
+/-- `sec β − tan β` without cancellation -/
+def lccSecMinusTan (tbet scbet : α) : α := if RealLike.ltb (0 : α) tbet then (1 : α) / (scbet + tbet) else scbet - tbet
+/-- `tbm = 1 − (tbet2 + tbet1)/(scbet2 + scbet1)` -/
+def lccTbm (tbet1 scbet1 tbet2 scbet2 : α) : α := (lccSecMinusTan tbet1 scbet1 + lccSecMinusTan tbet2 scbet2) / (scbet1 + scbet2)
+/-- `dbet = (scbet2 + scbet1)/fm − (scphi2 + scphi1)` -/
+def lccDbet (e2 fm scphi1 scbet1 scphi2 scbet2 : α) : α :=
+  (e2 / fm) * ((1 : α) / (scbet2 + fm * scphi2) + (1 : α) / (scbet1 + fm * scphi1))
+/-- `dxiZ1 = xiZ − xi1` -/
+def lccDxiZ (e2 es sphi tphi scphi : α) : α := Deatanhe e2 es (1 : α) sphi / (scphi * (tphi + scphi))
+/-- `D(nu2, nu1)`, `nu = scphi·(shxiZ − shxi) − tphi·(chxiZ − chxi)` -/
+def lccDnu12 (f : α) (tphi1 scphi1 xi1 shxi1 chxi1 dshxiZ1 dchxiZ1 tphi2 scphi2 xi2 shxi2 chxi2 dshxiZ2 dchxiZ2 dxi : α) : α :=
+  (if RealLike.ltb (f * scphi1 * dshxiZ1) (f * (4 : α) * scphi2 * dshxiZ2) then
+      (dshxiZ1 + dshxiZ2) / 2 * Dhyp tphi1 tphi2 scphi1 scphi2
+        - ((scphi1 + scphi2) / 2 * Dsinh xi1 xi2 shxi1 shxi2 chxi1 chxi2 * dxi)
+    else (scphi2 * dshxiZ2 - scphi1 * dshxiZ1) / (tphi2 - tphi1))
+  + ((tphi1 + tphi2) / 2 * Dhyp shxi1 shxi2 chxi1 chxi2 * Dsinh xi1 xi2 shxi1 shxi2 chxi1 chxi2 * dxi)
+  - (dchxiZ1 + dchxiZ2) / 2
+
+/-- the careful evaluation of `1 − n` for `n >= 1/4` (arguments as in `Init`; the variable `t` of the code after its last update) -/
+def lccOneMinusN (E : Ell α) (den : α)
     (sphi1 tphi1 scphi1 shxi1 chxi1 xi1 tchi1 scchi1 tbet1 scbet1 : α)
     (sphi2 tphi2 scphi2 shxi2 chxi2 xi2 tchi2 scchi2 tbet2 scbet2 : α) : α :=
   let e2 := E.e2
   let fm := E.fm
-  let s1 := tphi1 * ((2 : α) * shxi1 * chxi1 * scphi1 - e2 * tphi1) - sq shxi1 * ((1 : α) + (2 : α) * sq tphi1)
-  let s2 := tphi2 * ((2 : α) * shxi2 * chxi2 * scphi2 - e2 * tphi2) - sq shxi2 * ((1 : α) + (2 : α) * sq tphi2)
-  let t1 := if RealLike.ltb tchi1 (0 : α) then scbet1 - tchi1 else (s1 + 1) / (scbet1 + tchi1)
-  let t2 := if RealLike.ltb tchi2 (0 : α) then scbet2 - tchi2 else (s2 + 1) / (scbet2 + tchi2)
-  let a2 := -(s2 / (scbet2 + scchi2) + t2) / ((2 : α) * scbet2)
-  let a1 := -(s1 / (scbet1 + scchi1) + t1) / ((2 : α) * scbet1)
+  let s1 := lccS e2 tphi1 scphi1 shxi1 chxi1
+  let s2 := lccS e2 tphi2 scphi2 shxi2 chxi2
+  let t1 := lccT s1 tchi1 scbet1
+  let t2 := lccT s2 tchi2 scbet2
+  let a2 := lccA s2 t2 scchi2 scbet2
+  let a1 := lccA s1 t1 scchi1 scbet1
   let t := Dlog1p a2 a1 / den
   let t := t * (((epPsi tchi2 scchi2 + epPsi tchi1 scchi1) / ((4 : α) * scbet1 * scbet2)) * fm)
-  let tbm := ((if RealLike.ltb (0 : α) tbet1 then (1 : α) / (scbet1 + tbet1) else scbet1 - tbet1) +
-              (if RealLike.ltb (0 : α) tbet2 then (1 : α) / (scbet2 + tbet2) else scbet2 - tbet2)) / (scbet1 + scbet2)
+  let tbm := lccTbm tbet1 scbet1 tbet2 scbet2
   let dtchi := den / Dasinh tchi2 tchi1 scchi2 scchi1
-  let dbet := (e2 / fm) * ((1 : α) / (scbet2 + fm * scphi2) + (1 : α) / (scbet1 + fm * scphi1))
+  let dbet := lccDbet e2 fm scphi1 scbet1 scphi2 scbet2
   let xiZ := eatanhe (1 : α) E.es
   let shxiZ := RealLike.sinh xiZ
   let chxiZ := hyp shxiZ
-  let dxiZ1 := Deatanhe e2 E.es (1 : α) sphi1 / (scphi1 * (tphi1 + scphi1))
-  let dxiZ2 := Deatanhe e2 E.es (1 : α) sphi2 / (scphi2 * (tphi2 + scphi2))
+  let dxiZ1 := lccDxiZ e2 E.es sphi1 tphi1 scphi1
+  let dxiZ2 := lccDxiZ e2 E.es sphi2 tphi2 scphi2
   let dshxiZ1 := Dsinh xiZ xi1 shxiZ shxi1 chxiZ chxi1 * dxiZ1
   let dshxiZ2 := Dsinh xiZ xi2 shxiZ shxi2 chxiZ chxi2 * dxiZ2
   let dchxiZ1 := Dhyp shxiZ shxi1 chxiZ chxi1 * dshxiZ1
   let dchxiZ2 := Dhyp shxiZ shxi2 chxiZ chxi2 * dshxiZ2
   let amu12 := -(scphi1 * dchxiZ1) + tphi1 * dshxiZ1 - scphi2 * dchxiZ2 + tphi2 * dshxiZ2
   let dxi := Deatanhe e2 E.es sphi1 sphi2 * Dsn tphi2 tphi1 sphi2 sphi1
-  let dnu12 :=
-    (if RealLike.ltb (E.f * scphi1 * dshxiZ1) (E.f * (4 : α) * scphi2 * dshxiZ2) then
-        (dshxiZ1 + dshxiZ2) / 2 * Dhyp tphi1 tphi2 scphi1 scphi2
-          - ((scphi1 + scphi2) / 2 * Dsinh xi1 xi2 shxi1 shxi2 chxi1 chxi2 * dxi)
-      else (scphi2 * dshxiZ2 - scphi1 * dshxiZ1) / (tphi2 - tphi1))
-    + ((tphi1 + tphi2) / 2 * Dhyp shxi1 shxi2 chxi1 chxi2 * Dsinh xi1 xi2 shxi1 shxi2 chxi1 chxi2 * dxi)
-    - (dchxiZ1 + dchxiZ2) / 2
+  let dnu12 := lccDnu12 E.f tphi1 scphi1 xi1 shxi1 chxi1 dshxiZ1 dchxiZ1 tphi2 scphi2 xi2 shxi2 chxi2 dshxiZ2 dchxiZ2 dxi
   let dchia := amu12 - dnu12 * (scphi2 + scphi1)
   let tam := (dchia - dtchi * dbet) / (scchi1 + scchi2)
-  let t := t * (tbm - tam)
+  t * (tbm - tam)
+
+/-- `nc = sqrt((1 − n)(1 + n))` for `n >= 1/4`, with `1 − n` evaluated carefully -/
+def lccNcCareful (E : Ell α) (n den : α)
+    (sphi1 tphi1 scphi1 shxi1 chxi1 xi1 tchi1 scchi1 tbet1 scbet1 : α)
+    (sphi2 tphi2 scphi2 shxi2 chxi2 xi2 tchi2 scchi2 tbet2 scbet2 : α) : α :=
+  let t := lccOneMinusN E den sphi1 tphi1 scphi1 shxi1 chxi1 xi1 tchi1 scchi1 tbet1 scbet1
+             sphi2 tphi2 scphi2 shxi2 chxi2 xi2 tchi2 scchi2 tbet2 scbet2
   RealLike.sqrt (fmax (0 : α) t * ((1 : α) + n))
 
 /-- `x` of a cone from `nrho0 = n·rho0`, `drho = rho − rho0`, `sin(theta)` and `lam` (the cylinder when `n = 0`) -/
@@ -333,9 +360,23 @@ def tphifLoop (E : Ell α) (txi stol : α) : Nat → α → α
     let tphi' := tphi + dtphi
     if !(RealLike.leb stol (RealLike.abs dtphi)) then tphi' else tphifLoop E txi stol n tphi'
 
-/-- `AlbersEqualArea::tphif(txi)` (`numit_ = 5`, `tol_ = sqrt(eps)`) -/
+/-- `AlbersEqualArea::tphif(txi)` (`numit_ = 50` since 707b423, `tol_ = sqrt(eps)`) -/
 def tphif (E : Ell α) (txi : α) : α :=
-  tphifLoop E txi ((sqrtEps : α) * fmax (1 : α) (RealLike.abs txi)) 5 txi
+  tphifLoop E txi ((sqrtEps : α) * fmax (1 : α) (RealLike.abs txi)) 50 txi
+
+/-- did the Newton loop of `tphif` stop by its tolerance (and not by the silent iteration cap `numit_ = 5`)? -/
+def tphifLoopConv (E : Ell α) (txi stol : α) : Nat → α → Bool
+  | 0, _ => false
+  | n + 1, tphi =>
+    let txia := txif E tphi
+    let tphi2 := sq tphi
+    let scphi2 := (1 : α) + tphi2
+    let scterm := scphi2 / ((1 : α) + sq txia)
+    let dtphi := (txi - txia) * scterm * RealLike.sqrt scterm * E.qx * sq ((1 : α) - E.e2 * tphi2 / scphi2)
+    if !(RealLike.leb stol (RealLike.abs dtphi)) then true else tphifLoopConv E txi stol n (tphi + dtphi)
+
+def tphifConv (E : Ell α) (txi : α) : Bool :=
+  tphifLoopConv E txi ((sqrtEps : α) * fmax (1 : α) (RealLike.abs txi)) 50 txi
 
 /-- exponent `e` with `|x|·2^e ∈ [1/2, 1)` for `0 < |x| < 1/2` (`frexp`) -/
 def frexpNeg (ax : α) : Nat → Nat → Nat
@@ -394,6 +435,11 @@ def DD2Inner (e2 : α) (m kmax : Nat) : Nat → α → α → α
     let c := c / ofInt (((kmax : Int) - (k : Int)) * (2 * ((kmax : Int) - (k : Int)) + 1))
     DD2Inner e2 m kmax k c (e2 * t + c)
 
+/-- the coefficient polynomial `t` of the `m`-th term of `DDatanhee2` after the inner loop (`c = t = m + 2` before it) -/
+def dd2Coef (e2 : α) (m : Nat) : α :=
+  let c : α := RealLike.ofNat (m + 2)
+  DD2Inner e2 m ((m + 1) / 2) ((m + 1) / 2) c c
+
 structure DD2St (α : Type) where
   m : Nat
   xy : α
@@ -406,19 +452,33 @@ def DDatanhee2Loop (E : Ell α) (dx dy : α) : Nat → DD2St α → α
   | 0, st => st.s
   | fuel + 1, st =>
     let m := st.m
-    let c : α := RealLike.ofNat (m + 2)
     let yy := st.yy * dy
     let xy := dx * st.xy + yy
     let ee := st.ee / (-E.e2m)
     let ee := if m % 2 == 0 then ee * E.e2 else ee
-    let kmax := (m + 1) / 2
-    let t := DD2Inner E.e2 m kmax kmax c c
+    let t := dd2Coef E.e2 m
     let ds := t * ee * xy / RealLike.ofNat (m + 2)
     let s := st.s + ds
     if RealLike.ltb (RealLike.abs s * (eps : α) / 2) (RealLike.abs ds) then
       DDatanhee2Loop E dx dy fuel ⟨m + 1, xy, yy, ee, s, 0⟩
     else if st.nsmall + 1 == 2 then s
     else DDatanhee2Loop E dx dy fuel ⟨m + 1, xy, yy, ee, s, st.nsmall + 1⟩
+
+/-- the termination rule of `DDatanhee2` before 9562c37 (finding F61), kept as a counter-model: the loop stopped at the *first*
+    negligible term -/
+def DDatanhee2LoopOld (E : Ell α) (dx dy : α) : Nat → DD2St α → α
+  | 0, st => st.s
+  | fuel + 1, st =>
+    let m := st.m
+    let yy := st.yy * dy
+    let xy := dx * st.xy + yy
+    let ee := st.ee / (-E.e2m)
+    let ee := if m % 2 == 0 then ee * E.e2 else ee
+    let t := dd2Coef E.e2 m
+    let ds := t * ee * xy / RealLike.ofNat (m + 2)
+    let s := st.s + ds
+    if !(RealLike.ltb (RealLike.abs s * (eps : α) / 2) (RealLike.abs ds)) then s
+    else DDatanhee2LoopOld E dx dy fuel ⟨m + 1, xy, yy, ee, s, 0⟩
 
 /-- `DDatanhee2` (series in `1 − x`, `1 − y`) -/
 def DDatanhee2 (E : Ell α) (x y : α) : α :=
@@ -431,7 +491,8 @@ def DDatanhee (E : Ell α) (x0 y0 : α) : α :=
   let x := if sw then y0 else x0
   let y := if sw then x0 else y0
   let q1 := RealLike.abs E.e2
-  let q2 := RealLike.abs ((2 : α) * E.e / E.e2m * ((1 : α) - x))
+  -- (for `e² < 0` the factor is `1 + e`: the usable range of `DDatanhee2` shrinks by its cancellation, e5ca000)
+  let q2 := RealLike.abs ((if RealLike.ltb E.f (0 : α) then (1 : α) + E.e else (2 : α)) * E.e / E.e2m * ((1 : α) - x))
   if RealLike.leb x (0 : α) || !(RealLike.ltb (RealLike.min q1 q2) (RealLike.ofDec 75 2)) then DDatanhee0 E x y
   else if RealLike.ltb q1 q2 then DDatanhee1 E x y else DDatanhee2 E x y
 
@@ -448,8 +509,9 @@ structure ALB (α : Type) where
   scxi0 : α
   sxi0 : α
 
-/-- one Newton step of the `tphi0` iteration of `Init`: the correction `dtu` -/
-def albNewtonStep (E : Ell α) (s sm1 tphi0 : α) : α :=
+/-- the function `u` whose zero the `tphi0` iteration of `Init` seeks and its derivative `du` with respect to `sin φ0`
+    (`axm1` is the value of `atanhxm1` at `e2·(sphi0m/(1 − e2·sphi0))²`), with `scphi0·scphi02` -/
+def albNewtonU (E : Ell α) (s sm1 tphi0 axm1 : α) : α × α × α :=
   let e2 := E.e2
   let e2m := E.e2m
   let scphi02 := (1 : α) + sq tphi0
@@ -461,26 +523,79 @@ def albNewtonStep (E : Ell α) (s sm1 tphi0 : α) : α :=
   let D := sphi0m * ((1 : α) - e2 * ((1 : α) + (2 : α) * sphi0 * ((1 : α) + sphi0))) / (e2m * ((1 : α) + sphi0))
   let dD := -(2 : α) * ((1 : α) - e2 * sq sphi0 * ((2 : α) * sphi0 + 3)) / (e2m * sq ((1 : α) + sphi0))
   let A := -e2 * sq sphi0m * ((2 : α) + ((1 : α) + e2) * sphi0) / (e2m * ((1 : α) - e2 * sq sphi0))
-  let B := sphi0m * e2m / ((1 : α) - e2 * sphi0) *
-      (atanhxm1 (e2 * sq (sphi0m / ((1 : α) - e2 * sphi0))) - e2 * sphi0m / e2m)
+  let B := sphi0m * e2m / ((1 : α) - e2 * sphi0) * (axm1 - e2 * sphi0m / e2m)
   let dAB := (2 : α) * e2 * ((2 : α) - e2 * ((1 : α) + sq sphi0)) / (e2m * sq ((1 : α) - e2 * sq sphi0) * scphi02)
   let u := sm1 * g - s / E.qZ * (D - g * (A + B))
   let du := sm1 * dg - s / E.qZ * (dD - dg * (A + B) - g * dAB)
-  let dtu := (0 : α) - u / du * (scphi0 * scphi02)
-  dtu
+  (u, du, scphi0 * scphi02)
 
-def albNewtonLoop (E : Ell α) (s sm1 stol : α) : Nat → α → α
-  | 0, tphi0 => tphi0
-  | n + 1, tphi0 =>
-    let dtu := albNewtonStep E s sm1 tphi0
-    let tphi0' := tphi0 + dtu
-    if !(RealLike.leb stol (RealLike.abs dtu)) then tphi0' else albNewtonLoop E s sm1 stol n tphi0'
+/-- the argument of `atanhxm1` in that iteration -/
+def albNewtonArg (E : Ell α) (tphi0 : α) : α :=
+  let scphi02 := (1 : α) + sq tphi0
+  let scphi0 := RealLike.sqrt scphi02
+  let sphi0 := tphi0 / scphi0
+  let sphi0m := (1 : α) / (scphi0 * (tphi0 + scphi0))
+  E.e2 * sq (sphi0m / ((1 : α) - E.e2 * sphi0))
+
+/-- one Newton step of the `tphi0` iteration of `Init`: the correction `dtu` -/
+def albNewtonStep (E : Ell α) (s sm1 tphi0 : α) : α :=
+  let r := albNewtonU E s sm1 tphi0 (atanhxm1 (albNewtonArg E tphi0))
+  (0 : α) - r.1 / r.2.1 * r.2.2
+
+/-- the Newton loop of `Init` with the safeguard of cc09272: a step that does not decrease `|u|` is halved (`hasPrev` is false
+    before the first iterate, where the code holds `uprev = ∞`) -/
+def albNewtonLoop (E : Ell α) (s sm1 stol : α) : Nat → Bool → α → α → α → α → α
+  | 0, _, _, _, _, tphi0 => tphi0
+  | n + 1, hasPrev, tprev, uprev, dtprev, tphi0 =>
+    let r := albNewtonU E s sm1 tphi0 (atanhxm1 (albNewtonArg E tphi0))
+    let u := r.1
+    let dtu := (0 : α) - u / r.2.1 * r.2.2
+    if hasPrev && RealLike.ltb (RealLike.abs uprev) (RealLike.abs u) then
+      let dtp := dtprev / 2
+      let t' := tprev + dtp
+      if RealLike.leb stol (RealLike.abs dtp) then albNewtonLoop E s sm1 stol n true tprev uprev dtp t' else t'
+    else
+      let t' := tphi0 + dtu
+      if !(RealLike.leb stol (RealLike.abs dtu)) then t' else albNewtonLoop E s sm1 stol n true tphi0 u dtu t'
 
 /-- `(1 − sxi)/(1 − sphi)`-type factor of `Init`: `sphi <= 0 ? (1 − sxi)/(1 − sphi) : (cxi/cphi)²(1 + sphi)/(1 + sxi)` -/
 def albRatio (sphi cphi sxi cxi : α) : α :=
   if RealLike.leb sphi (0 : α) then ((1 : α) - sxi) / ((1 : α) - sphi) else sq (cxi / cphi) * ((1 : α) + sphi) / ((1 : α) + sxi)
 /-- `sphi <= 0 ? 1 − sphi : cphi²/(1 + sphi)` -/
 def albOneMinus (sphi cphi : α) : α := if RealLike.leb sphi (0 : α) then (1 : α) - sphi else sq cphi / ((1 : α) + sphi)
+
+/-- `s`, `1 − s` (`sm1`) and `C` of `Init` for two distinct parallels -/
+structure AlbSC (α : Type) where
+  s : α
+  sm1 : α
+  C : α
+
+/-- the block of `Init` that computes `s = n qZ/C`, `1 − s` and `C` from the ordered parallels; `txi1`, `txi2` are `txif` of the
+    two tangents and `dd` is `DDatanhee(sphi1, sphi2)` -/
+def albSC (E : Ell α) (sphi1 cphi1 tphi1 sphi2 cphi2 tphi2 txi1 txi2 dd : α) : AlbSC α :=
+  let e2 := E.e2
+  let fm := E.fm
+  let tbet1 := fm * tphi1
+  let scbet12 := (1 : α) + sq tbet1
+  let tbet2 := fm * tphi2
+  let scbet22 := (1 : α) + sq tbet2
+  let cxi1 := (1 : α) / hyp txi1
+  let sxi1 := txi1 * cxi1
+  let cxi2 := (1 : α) / hyp txi2
+  let sxi2 := txi2 * cxi2
+  let dtbet2 := fm * (tbet1 + tbet2)
+  let es1 := (1 : α) - e2 * sq sphi1
+  let es2 := (1 : α) - e2 * sq sphi2
+  let dsxi := (((1 : α) + e2 * sphi1 * sphi2) / (es2 * es1) + E.Datanhee sphi2 sphi1) * Dsn tphi2 tphi1 sphi2 sphi1 / ((2 : α) * E.qx)
+  let den := (sxi2 + sxi1) * dtbet2 + (scbet22 + scbet12) * dsxi
+  let s := (2 : α) * dtbet2 / den
+  let sm1 := -(Dsn tphi2 tphi1 sphi2 sphi1) *
+    (-(albRatio sphi2 cphi2 sxi2 cxi2 + albRatio sphi1 cphi1 sxi1 cxi1) *
+        ((1 : α) + e2 * (sphi1 + sphi2 + sphi1 * sphi2)) / ((1 : α) + (sphi1 + sphi2 + sphi1 * sphi2))
+      + (scbet22 * albOneMinus sphi2 cphi2 + scbet12 * albOneMinus sphi1 cphi1) *
+        (e2 * ((1 : α) + sphi1 + sphi2 + e2 * sphi1 * sphi2) / (es1 * es2) + E.e2m * dd) / E.qZ) / den
+  let C := den / ((2 : α) * scbet12 * scbet22 * dsxi)
+  ⟨s, sm1, C⟩
 
 /-- `AlbersEqualArea::Init(sphi1, cphi1, sphi2, cphi2, k1)` -/
 def albInit (E : Ell α) (sphi1 cphi1 sphi2 cphi2 k1 : α) : ALB α :=
@@ -500,37 +615,18 @@ def albInit (E : Ell α) (sphi1 cphi1 sphi2 cphi2 k1 : α) : ALB α :=
   let (sphi1, cphi1, sphi2, cphi2) := if sw then (sphi2, cphi2, sphi1, cphi1) else (sphi1, cphi1, sphi2, cphi2)
   let tphi1 := sphi1 / cphi1
   let tphi2 := sphi2 / cphi2
-  let e2 := E.e2
   let fm := E.fm
   let (tphi0, C) :=
     if polar || RealLike.eqb tphi1 tphi2 then (tphi2, (1 : α))
     else
-      let tbet1 := fm * tphi1
-      let scbet12 := (1 : α) + sq tbet1
-      let tbet2 := fm * tphi2
-      let scbet22 := (1 : α) + sq tbet2
-      let txi1 := txif E tphi1
-      let cxi1 := (1 : α) / hyp txi1
-      let sxi1 := txi1 * cxi1
-      let txi2 := txif E tphi2
-      let cxi2 := (1 : α) / hyp txi2
-      let sxi2 := txi2 * cxi2
-      let dtbet2 := fm * (tbet1 + tbet2)
-      let es1 := (1 : α) - e2 * sq sphi1
-      let es2 := (1 : α) - e2 * sq sphi2
-      let dsxi := (((1 : α) + e2 * sphi1 * sphi2) / (es2 * es1) + E.Datanhee sphi2 sphi1) * Dsn tphi2 tphi1 sphi2 sphi1 / ((2 : α) * E.qx)
-      let den := (sxi2 + sxi1) * dtbet2 + (scbet22 + scbet12) * dsxi
-      let s := (2 : α) * dtbet2 / den
-      let sm1 := -(Dsn tphi2 tphi1 sphi2 sphi1) *
-        (-(albRatio sphi2 cphi2 sxi2 cxi2 + albRatio sphi1 cphi1 sxi1 cxi1) *
-            ((1 : α) + e2 * (sphi1 + sphi2 + sphi1 * sphi2)) / ((1 : α) + (sphi1 + sphi2 + sphi1 * sphi2))
-          + (scbet22 * albOneMinus sphi2 cphi2 + scbet12 * albOneMinus sphi1 cphi1) *
-            (e2 * ((1 : α) + sphi1 + sphi2 + e2 * sphi1 * sphi2) / (es1 * es2) + E.e2m * DDatanhee E sphi1 sphi2) / E.qZ) / den
-      let C := den / ((2 : α) * scbet12 * scbet22 * dsxi)
+      let sc := albSC E sphi1 cphi1 tphi1 sphi2 cphi2 tphi2 (txif E tphi1) (txif E tphi2) (DDatanhee E sphi1 sphi2)
+      let s := sc.s
+      let sm1 := sc.sm1
+      let C := sc.C
       let tphi0 := (tphi2 + tphi1) / 2
       let tol0 : α := (sqrtEps : α) * RealLike.sqrt (sqrtEps : α)
       let stol := tol0 * fmax (1 : α) (RealLike.abs tphi0)
-      (albNewtonLoop E s sm1 stol 40 tphi0, C)
+      (albNewtonLoop E s sm1 stol 40 false tphi0 (0 : α) (0 : α) tphi0, C)
   let txi0 := txif E tphi0
   let scxi0 := hyp txi0
   let sxi0 := txi0 / scxi0
